@@ -151,9 +151,9 @@ pub fn observable_digest(r: &RunResult) -> u64 {
     }
     let mut f = Fnv::default();
     f.update_u64(r.trace_digest);
-    f.update(&r.stdout);
+    f.update(String::from_utf8_lossy(&r.stdout).replace(&r.root, "@ROOT@").as_bytes());
     // a panic message carries the OS thread id ("thread 'main' (12345) panicked"): not part of the behaviour
-    let stderr = String::from_utf8_lossy(&r.stderr);
+    let stderr = String::from_utf8_lossy(&r.stderr).replace(&r.root, "@ROOT@");
     let mut cleaned = String::with_capacity(stderr.len());
     for line in stderr.lines() {
         if line.starts_with("thread '") && line.contains(") panicked") {
